@@ -104,17 +104,23 @@ Fixpoint t_go (s : tst) (l : str) : list str :=
 Definition tokenize_ttl (line : str) : list str := t_go t_init line.
 
 (* ---- clean_turtle_term / resolve_query_term ---------------------------------------------------------- *)
-(* None = the implementation panics (slice 1..0 of the one-character term consisting of a double quote) *)
-Definition clean_ttl (term0 : str) : option str :=
+(* commit dbe5296: every term that starts with a quote is decoded like clean_ntriples_term does; total *)
+Definition clean_ttl (term0 : str) : str :=
   let term := trim term0 in
-  if starts_with sLTLT term then Some term
-  else if starts_with [cLT] term && ends_with [cGT] term then Some (strip1 term)
-  else if starts_with [cDQ] term && ends_with [cDQ] term then
+  if starts_with sLTLT term then term
+  else if starts_with [cLT] term && ends_with [cGT] term then strip1 term
+  else if starts_with [cDQ] term then
+    let fallback := if (2 <=? N.of_nat (length term)) && ends_with [cDQ] term then strip1 term
+                    else trim_matches cDQ term in
     match decode term with
-    | Some (v, []) => Some v
-    | _ => match term with [_] => None | _ => Some (strip1 term) end
+    | Some (v, rest) =>
+        if is_nil rest then v
+        else if starts_with [cCARET; cCARET] rest then v
+        else if starts_with [cAT] rest then v ++ rest
+        else fallback
+    | None => fallback
     end
-  else Some (trim_matches cDQ term).
+  else trim_matches cDQ term.
 
 (* resolve_query_term with no prefix known (neither in the argument nor in the database) *)
 Definition resolve (term : str) : str :=
@@ -124,13 +130,43 @@ Definition resolve (term : str) : str :=
   else term.
 
 (* ---- parse_turtle: the statement state machine over the tokens of ONE line ------------------------------ *)
-Inductive tres := TOk (triples : list quad) | TUnsupported | TPanic.
+Inductive tres := TOk (triples : list quad) | TUnsupported.   (* TUnsupported: a prefix declaration *)
 
 Record gst := GS { g_subj : option str; g_pred : option str; g_objs : list str;
                    g_es : bool; g_ep : bool; g_eo : bool; g_out : list quad; g_bad : option tres }.
 Definition g_init : gst := GS None None [] true false false [] None.
 
 Definition sANN_OPEN := [cLBRACE; cBAR].   Definition sANN_CLOSE := [cBAR; cRBRACE].
+
+(* str::find: the text before the first occurrence of p and the text after it *)
+Fixpoint find_sub (p l : str) : option (str * str) :=
+  if starts_with p l then Some ([], skipn (length p) l)
+  else match l with
+       | [] => None
+       | c :: r => match find_sub p r with Some (a, b) => Some (c :: a, b) | None => None end
+       end.
+(* commit e7e251c: the opening marker is searched only after the end of a leading quoted literal
+   (object_raw[after_literal..]) *)
+Definition ann_searched (object_raw : str) : str :=
+  if starts_with [cDQ] object_raw then
+    match decode object_raw with Some (_, rest) => rest | None => object_raw end
+  else object_raw.
+(* splitn(2, char::is_whitespace) *)
+Fixpoint split_ws1 (l : str) : str * option str :=
+  match l with
+  | [] => ([], None)
+  | c :: r => if is_ws c then ([], Some r) else let '(a, b) := split_ws1 r in (c :: a, b)
+  end.
+
+(* the main triple of flush_object and its annotation triples *)
+Definition g_emit (s : gst) (sr pr object_part : str) (anns : list (str * str)) : gst :=
+  let s2 := resolve (clean_ttl sr) in let p2 := resolve (clean_ttl pr) in let o2 := resolve (clean_ttl object_part) in
+  let t := if starts_with sLTLT s2 || starts_with sLTLT o2
+           then (ets s2, ets p2, ets o2, None)
+           else (s2, p2, o2, None) in
+  let qt := sLTLT ++ [cSP] ++ s2 ++ [cSP] ++ p2 ++ [cSP] ++ o2 ++ [cSP] ++ sGTGT in
+  let ats := map (fun a => (ets qt, ets (resolve (clean_ttl (fst a))), ets (resolve (clean_ttl (snd a))), None : option str)) anns in
+  GS (g_subj s) (g_pred s) [] (g_es s) (g_ep s) (g_eo s) (g_out s ++ [t] ++ ats) (g_bad s).
 
 (* flush_object *)
 Definition g_flush (s : gst) : gst :=
@@ -139,22 +175,21 @@ Definition g_flush (s : gst) : gst :=
       if is_nil (g_objs s) then s
       else
         let object_raw := join [cSP] (g_objs s) in
-        if contains sANN_OPEN object_raw && contains sANN_CLOSE object_raw then
-          (* annotation syntax {| ... |}: not modelled *)
-          GS (g_subj s) (g_pred s) [] (g_es s) (g_ep s) (g_eo s) (g_out s)
-             (match g_bad s with Some b => Some b | None => Some TUnsupported end)
-        else
-          match clean_ttl sr, clean_ttl pr, clean_ttl object_raw with
-          | Some s1, Some p1, Some o1 =>
-              let s2 := resolve s1 in let p2 := resolve p1 in let o2 := resolve o1 in
-              let t := if starts_with sLTLT s2 || starts_with sLTLT o2
-                       then (ets s2, ets p2, ets o2, None)
-                       else (s2, p2, o2, None) in
-              GS (g_subj s) (g_pred s) [] (g_es s) (g_ep s) (g_eo s) (g_out s ++ [t]) (g_bad s)
-          | _, _, _ =>
-              GS (g_subj s) (g_pred s) [] (g_es s) (g_ep s) (g_eo s) (g_out s)
-                 (match g_bad s with Some b => Some b | None => Some TPanic end)
-          end
+        let searched := ann_searched object_raw in
+        let lit_part := firstn (length object_raw - length searched) object_raw in
+        match find_sub sANN_OPEN searched with
+        | None => g_emit s sr pr object_raw []
+        | Some (pre, post) =>
+            match find_sub sANN_CLOSE post with
+            | None => g_emit s sr pr object_raw []
+            | Some (content, _) =>
+                let obj := trim (lit_part ++ pre) in
+                match split_ws1 (trim content) with
+                | (a, Some b) => g_emit s sr pr obj [(a, b)]
+                | (_, None) => g_emit s sr pr obj []
+                end
+            end
+        end
   | _, _ => s
   end.
 
